@@ -27,6 +27,7 @@ static inline BOOL op_ne__QString_QString(QString a, QString b) { return !QSTRIN
 typedef struct { int isnull; int id; int len; int owner; QBYTEARRAY_EXTRA_FIELDS } QByteArray;
 static inline QByteArray QByteArray_ctor(void) { QByteArray s; s.isnull = 1; s.id = 0; s.len = 0; s.owner = 0; return s; }
 
+#ifndef VERIF_OWN_QVARIANT
 /* QVariant / QVariantHash: identity of the (immutable) value */
 typedef struct { int id; } QVariant;
 typedef struct { int id; } QVariantHash;
@@ -52,6 +53,7 @@ static inline BOOL QVariantHash_contains__QString(QVariantHash self, QString key
 static inline QVariant QVariantHash_value__QString(QVariantHash self, QString key)
 { QVariant v; v.id = __CPROVER_uninterpreted_hash_value(self.id, QSTRING_KEY(key)); return v; }
 static inline BOOL QVariantHash_isEmpty(QVariantHash self) { return __CPROVER_uninterpreted_hash_size(self.id) == 0; }
+#endif /* VERIF_OWN_QVARIANT */
 
 #ifndef VERIF_OWN_QSTRINGLIST
 /* abstract QList<QString> (also QStringList): length only, elements nondeterministic */
